@@ -171,10 +171,10 @@ def evaluate(case):
     return fails[:6]
 
 
-def gen(ctx, mc, mp):
+def gen(ctx, mc, mp, twin=True):
     out = []
-    ctx.require_ok(ctx.tlc("ImagesDoc", cfg_text=core.cfg_with("ImagesDoc.cfg", [], {"MaxCells": mc, "MaxPerCell": mp}), on_emit=out.append,
-                           constants={"MaxCells": mc, "MaxPerCell": mp}, timeout=1800))
+    consts = {"MaxCells": mc, "MaxPerCell": mp, "WithTwin": twin}
+    ctx.require_ok(ctx.tlc("ImagesDoc", cfg_text=core.cfg_with("ImagesDoc.cfg", [], consts), on_emit=out.append, constants=consts, timeout=1800))
     return out
 
 
@@ -187,7 +187,7 @@ def run(ctx):
                 "byte. non-trivial = distinct (manifest, concretisation)")
     cases = gen(ctx, 2, 2 if ctx.quick else 3)
     if not ctx.quick:
-        cases += [c for i, c in enumerate(gen(ctx, 3, 2)) if i % 4 == ctx.seed % 4]
+        cases += [c for i, c in enumerate(gen(ctx, 3, 2, twin=False)) if i % 4 == ctx.seed % 4]
     for i, c in enumerate(cases):
         c["rot"] = (i + ctx.seed) % 132
         c["viafile"] = (i % 41 == 0)
